@@ -91,8 +91,37 @@ def tokens(stmt):
     return out
 
 
+def join_pragmas(comments):
+    """join directive continuation lines ('!$kw ... &' followed by '!$kw & ...') into one normalised comment each"""
+    out, cur, kw = [], None, None
+    for c in comments:
+        t = c.strip()
+        m = re.match(r'!\$(\w+)', t)
+        if cur is not None:
+            if m and m.group(1).lower() == kw:
+                rest = t[m.end():].strip()
+                if rest.startswith('&'):
+                    rest = rest[1:].strip()
+                if rest.endswith('&'):
+                    cur += ' ' + rest[:-1].strip()
+                    continue
+                out.append(re.sub(r'\s+', ' ', cur + ' ' + rest))
+                cur = None
+                continue
+            out.append(re.sub(r'\s+', ' ', cur) + ' <DANGLING-CONTINUATION>')
+            cur = None
+        if m and t.endswith('&'):
+            cur, kw = t[:-1].strip(), m.group(1).lower()
+            continue
+        out.append(re.sub(r'\s+', ' ', t))
+    if cur is not None:
+        out.append(re.sub(r'\s+', ' ', cur) + ' <DANGLING-CONTINUATION>')
+    return out
+
+
 def token_stream(text):
     stmts, comments = join_continuations(text)
+    comments = join_pragmas(comments)
     toks = []
     for s in stmts:
         toks += tokens(s) + ['<eos>']
@@ -110,7 +139,7 @@ def hostile_inserts(src, rng):
     ins = []
     n = rng.randint(1, 4)
     for _ in range(n):
-        kind = rng.choice(['longstr', 'longstr2', 'comment', 'quotes', 'concat'])
+        kind = rng.choice(['longstr', 'longstr2', 'comment', 'quotes', 'concat', 'pragma'])
         L = rng.choice([40, 70, 100, 125, 140, 200])
         filler = ''.join(rng.choice('abcdefghij klmnop,;:()=+*/&!') for _ in range(L))
         if kind == 'longstr':
@@ -120,6 +149,12 @@ def hostile_inserts(src, rng):
         elif kind == 'quotes':
             f2 = filler.replace('a', "''").replace('b', '"')
             ins.append(f"    print '(A)', '{f2}'")
+        elif kind == 'pragma':
+            sent = rng.choice(['acc', 'omp', 'loki'])
+            names = ['a1', 'a2', 'x1', 'x2', 's1', 's2', 'i1', 'i2', 'n', 'm']
+            clause = ' '.join(f"{rng.choice(['copyin', 'private', 'present', 'map'])}({', '.join(rng.sample(names, rng.randint(2, 6)))})"
+                              for _ in range(max(1, L // 28)))
+            ins.append(f'    !${sent} data {clause}')
         elif kind == 'concat':
             ins.append(f"    print '(A)', '{filler[:L // 2]}' // '{filler[L // 2:]}' // 'x'")
         else:
